@@ -75,6 +75,7 @@ Proof.
     + apply (KEs_one [32] [34; 98; 34] (KQuoted [98]) [32]); try (repeat constructor; tauto).
       apply KE_quoted. apply (Str [98] [98]); [|reflexivity]. apply B_raw; [discriminate|discriminate|constructor].
 Qed.
+Print Assumptions C16_grammar_instance.
 
 (* spacing variants of one list; a negative index; a quoted name with an escape; the empty path *)
 Example C16_spacing_variants :
@@ -84,6 +85,7 @@ Example C16_spacing_variants :
   parse_key_paths [123; 34; 97; 92; 116; 92; 117; 48; 48; 52; 49; 34; 125] = Ok [KQuoted [97; 9; 65]] /\
   parse_key_paths [32; 123; 32; 32; 125; 32] = Ok [].
 Proof. repeat split; vm_compute; reflexivity. Qed.
+Print Assumptions C16_spacing_variants.
 
 (* rejections: no braces, missing closing brace, trailing comma, a sign-initial or digit-initial name, an integer beyond
    i32, a space inside a plain name, something after the closing brace, an undefined escape in a plain name *)
@@ -98,6 +100,7 @@ Example C16_rejections :
   parse_key_paths [123; 97; 125; 120] = Err EOther /\
   parse_key_paths [123; 97; 92; 46; 98; 125] = Err EOther.
 Proof. repeat split; vm_compute; reflexivity. Qed.
+Print Assumptions C16_rejections.
 
 (* the named extras, confirmed on the real crate: {+1} is index 1; {a\u0041} is the plain name aA *)
 Example C16_extras :
@@ -122,3 +125,4 @@ From JB Require PathI32.
 Theorem C16_parsed_indices_are_i32 : forall bs ks, PathParse.parse_key_paths bs = Ok ks -> Forall PathI32.kp_in_i32 ks.
 Proof. exact PathI32.parsed_key_path_indices_are_i32. Qed.
 Print Assumptions C16_parsed_indices_are_i32.
+Print Assumptions C16_extras.
